@@ -494,7 +494,7 @@ pub static C34: PropDef = PropDef {
 const C35_FRAMES: &[&str] = &["DEFFRAME 0 \"a\":\n    A: 1\n", "DEFFRAME 1 \"a\":\n    A: 1\n", "DEFFRAME 0 1 \"c\":\n    A: 1\n"];
 const C35_HEAD: &str = "DEFWAVEFORM w:\n    1\nDEFWAVEFORM v:\n    1\nPRAGMA EXTERN f \"INTEGER\"\nPRAGMA EXTERN g \"INTEGER\"\nDECLARE ro INTEGER\nDEFGATE G AS PERMUTATION:\n    0, 1\nDEFCIRCUIT C:\n    X 0\n";
 const C35_CALS: &[&str] = &["", "DEFCAL X 0:\n    PULSE 0 \"a\" w\n    CALL f ro\n", "DEFCAL X q:\n    NONBLOCKING PULSE q \"a\" v\n    FENCE q\n", "DEFCAL X 0:\n    Y 0\nDEFCAL Y 0:\n    DELAY 0 1.0\n", "DEFCAL MEASURE 0 dest:\n    CAPTURE 0 \"a\" v dest\nDEFCAL X 1:\n    NOP\n", "DEFCAL X 1:\n    PULSE 0 \"a\" w\n"];
-const C35_BODY: &[&str] = &["X 0", "X 1", "RESET", "PULSE 1 \"a\" w", "FENCE", "FENCE 1", "DELAY 0 1 1.0", "CALL g ro", "SET-PHASE 0 1 \"c\" 1.0", "CAPTURE 0 \"a\" v ro", "RESET 0", "NOP", "Z 0", "MEASURE 0 ro", "PULSE 0 \"a\" flat(duration: 1.0, iq: 1)"];
+const C35_BODY: &[&str] = &["X 0", "X 1", "RESET", "SWAP-PHASES 0 \"a\" 1 \"a\"", "SWAP-PHASES 0 1 \"c\" 0 \"a\"", "PULSE 1 \"a\" w", "FENCE", "FENCE 1", "DELAY 0 1 1.0", "CALL g ro", "SET-PHASE 0 1 \"c\" 1.0", "CAPTURE 0 \"a\" v ro", "RESET 0", "NOP", "Z 0", "MEASURE 0 ro", "PULSE 0 \"a\" flat(duration: 1.0, iq: 1)"];
 
 fn c35_check(src: &str) -> (bool, Vec<(String, String)>) {
     let r = catch(|| {
@@ -608,7 +608,7 @@ pub static C35: PropDef = PropDef {
     id: "C35",
     level: "exploration",
     engine: "sweep",
-    rule: "programs = every subset of 3 frames (qubits 0, 1, 0+1) x every subset of 2 waveform and 2 extern definitions (names left undefined stay referenced, like built-in template waveforms) x declaration, DEFGATE, DEFCIRCUIT x 6 calibration sets (none, fixed, variable, nested, measure, one whose body acts on another qubit than its gate) x every body of 1-2 (thorough 4, 3 when a definition is left out) instructions from a 15-item menu (calibrated and uncalibrated gates, pulses, fences, delay, CALL, frame update, capture, RESET with and without a qubit, measure): simplify() vs expand_calibrations() body, no calibrations, frames = frames used by that body (reference frame rules; for a bare RESET the real handler asked about the expanded program), waveforms invoked, externs called, other definitions unchanged, block schedules equal. non-trivial = program that simplifies",
+    rule: "programs = every subset of 3 frames (qubits 0, 1, 0+1) x every subset of 2 waveform and 2 extern definitions (names left undefined stay referenced, like built-in template waveforms) x declaration, DEFGATE, DEFCIRCUIT x 6 calibration sets (none, fixed, variable, nested, measure, one whose body acts on another qubit than its gate) x every body of 1-2 (thorough 4, 3 when a definition is left out) instructions from a 17-item menu (calibrated and uncalibrated gates, pulses, fences, delay, CALL, frame update, SWAP-PHASES in two frame orders, capture, RESET with and without a qubit, measure): simplify() vs expand_calibrations() body, no calibrations, frames = frames used by that body (reference frame rules; for a bare RESET the real handler asked about the expanded program), waveforms invoked, externs called, other definitions unchanged, block schedules equal. non-trivial = program that simplifies",
     assumptions: &["frames used by an instruction = reference frame rules (ref_frames), checked against the code by C26"],
     run: |ctx| {
         let l = ctx.tier.pick(2, 4);
